@@ -12,6 +12,10 @@ directly on the implementation's own answers:
   * output_key      over `range(N)` equals `itertools.product(*map(range, shape))` (every position once, row-major);
   * input_keys      component = `slice(None)` for `:`, else the output position's component of that index name;
   * rename/add_axes the result is well-formed and has the renamed names / the appended axes.
+
+Round 9: whitespace-decorated specs (`SpSpec`, Model/MapSpecSpaced.lean) whose text and expected spec come from the Lean driver
+(`C08_parse_spaced`), `to_string`, swap / chain / successive renames (`C08_rename_swap`, `C08_rename_compose`), `add_axes` in two
+steps (`C08_add_axes_compose`).
 """
 from __future__ import annotations
 
@@ -27,7 +31,7 @@ import c08_extract
 from pipefunc.map._mapspec import ArraySpec, MapSpec, mapspec_axes, mapspec_dimensions, trace_dependencies, validate_consistent_axes
 
 PID = "C08"
-PROPS = ["PfModel.Props.C08", "PfModel.Props.C08Regex", "PfModel.Props.C08Axes", "PfModel.Props.C08Src"]
+PROPS = ["PfModel.Props.C08", "PfModel.Props.C08Regex", "PfModel.Props.C08Axes", "PfModel.Props.C08Spaced", "PfModel.Props.C08Ops", "PfModel.Props.C08AxesLoop", "PfModel.Props.C08KeyTests", "PfModel.Props.C08Src"]
 GENERATED = True          # Props/C08Src.lean is proved against lean/PfModel/Generated/C08Facts.lean, regenerated from the source on every run
 DRIVER = "C08"
 RULE = ("four seeded streams: (1) structured specs (0-3 inputs, 1-2 outputs, 1-4 index names, rank 1-3 with ':' axes, plain / "
@@ -37,8 +41,12 @@ RULE = ("four seeded streams: (1) structured specs (0-3 inputs, 1-2 outputs, 1-4
         "well-formed specs re-spaced with arbitrary whitespace, and strings damaged by 16 mutation operators; (3) lists of specs for "
         "validate_consistent_axes / mapspec_axes / mapspec_dimensions / trace_dependencies (for consistent lists the tables must give every "
         "spec its own rank and axis names); (4) re.findall with the pattern literal re-extracted from the source against the Lean regex "
-        "engine on random strings over 'ab1_.[]:, \\n-x', concatenations of adversarial pieces and mutated printings. A case is non-trivial when the spec has at least one input or the string at "
-        "least one bracket; distinct by the case's JSON")
+        "engine on random strings over 'ab1_.[]:, \\n-x', concatenations of adversarial pieces and mutated printings; (5) whitespace-decorated "
+        "specs (Model/MapSpecSpaced.lean): the harness draws a spec and a decoration (strip() whitespace incl. \\x1c-\\x1f around every array, "
+        "index, '...' and '->'; newlines outside brackets; 12 % decorations broken on purpose), LEAN prints the text and says which spec it must parse "
+        "to (C08_parse_spaced), from_string is run on that text; ops cases also carry to_string, swap / chain renames, two renames in a row "
+        "(C08_rename_compose: one table with the composed effect must give the same spec) and add_axes in two steps. A case is non-trivial when the spec has at least one input or the string at "
+        "least one bracket (a decorated spec: at least one whitespace character in the decoration); distinct by the case's JSON")
 ASSUMPTIONS = ["the regex engine of Model/MapSpecRegex.lean is the reading of CPython's sre (leftmost match, greedy/lazy priority order); it is exact for "
                "patterns whose repeated bodies and matches are never empty (proved for the source's pattern) and is compared with re.findall on every run",
                "ASCII identifiers only (the driver answers skip for anything else; the generators produce none)",
@@ -47,6 +55,8 @@ ASSUMPTIONS = ["the regex engine of Model/MapSpecRegex.lean is the reading of CP
                "round-trip clause, which uses the implementation's own == on user-constructed specs",
                "denotation clauses (shape, input_keys) are evaluated directly only for specs whose arrays have pairwise distinct "
                "index names and distinct input names; other accepted specs are compared with the model only",
+               "whitespace decorations are drawn from the ASCII characters str.strip() removes (space, \\t, \\n, \\r, \\x0b, \\x0c, \\x1c-\\x1f); the Unicode "
+               "spaces (\\x85, \\xa0, U+2000...) that strip() also removes are not modelled",
                "mapspec_axes is compared in its repaired (DF-29) form: positional tuples of the full rank with None for an axis no MapSpec names"]
 
 WS_IN = [" ", "  ", "\t", "\r", "\x0b", "\x0c", " \t "]                # inside brackets: everything strip() removes except \n
@@ -327,7 +337,37 @@ def gen_ops(rng, spec):
             if rng.random() < 0.3:
                 ren["unused"] = "u"
         ops.append(["rename", [[k, v] for k, v in ren.items()]])
+    ops.append(["to_string"])
+    uniq = sorted(set(arr_names))
+    if len(uniq) >= 2 and rng.random() < 0.5:                                                  # swap: simultaneous substitution
+        a, b = rng.sample(uniq, 2)
+        ops.append(["rename", [[a, b], [b, a]]])
+    if len(uniq) >= 2 and rng.random() < 0.35:                                                 # chain {a: b, b: c} in ONE call
+        a, b = rng.sample(uniq, 2)
+        ops.append(["rename", [[a, b], [b, rng.choice(["r9", "sc.r9", a])]]])
+    if uniq and rng.random() < 0.5:                                                            # two renames in a row
+        a = rng.choice(uniq)
+        mid = rng.choice(["t1", "sc.t1"] + uniq + (BAD_NAMES[:3] if rng.random() < 0.1 else []))
+        r1 = {a: mid}
+        r2 = {rng.choice([mid, mid, rng.choice(uniq)]): rng.choice(["t2", "r1", a] + uniq + (BAD_NAMES[:3] if rng.random() < 0.1 else []))}
+        if rng.random() < 0.3 and len(uniq) >= 2:
+            r1[rng.choice([u for u in uniq if u != a])] = rng.choice(["t3", a])
+        ops.append(["rename_seq", [[k, v] for k, v in r1.items()], [[k, v] for k, v in r2.items()]])
     used = {a for _, ax in spec["inputs"] + spec["outputs"] for a in ax if a is not None}
+    if rng.random() < 0.5:                                                                     # add_axes in two steps
+        fresh = [i for i in IDX + ["new", "new2", "n3"] if i not in used]
+        r = rng.random()
+        if r < 0.6:
+            pick = rng.sample(fresh, rng.choice([2, 2, 3]))
+            cut = rng.randint(1, len(pick) - 1)
+            ax1, ax2 = pick[:cut], pick[cut:]
+        elif r < 0.8:
+            ax1 = [rng.choice(fresh)]; ax2 = [ax1[0]]                                            # the second step clashes with the first
+        elif r < 0.9 and used:
+            ax1 = [rng.choice(fresh)]; ax2 = [rng.choice(sorted(used))]
+        else:
+            ax1 = [rng.choice(fresh)]; ax2 = [rng.choice([None, "1x", ""])]
+        ops.append(["add_axes_seq", ax1, ax2])
     for _ in range(rng.choice([1, 2])):
         r = rng.random()
         if r < 0.55:
@@ -456,6 +496,113 @@ def gen_multi_case(rng):
     return {"k": "multi", "specs": specs}
 
 
+
+# ------------------------------------------------------------------------------------------------ whitespace-decorated specs (round 9)
+WS_INNER = [" ", "  ", "\t", "\r", "\x0b", "\x0c", " \t ", "\x1c", "\x1d\x1e", "\x1f ", "   \t\t"]   # what strip() removes, without \n
+WS_OUTER = WS_INNER + ["\n", " \n ", "\n\n", "\r\n"]
+
+
+def gen_spaced_case(rng):
+    """A spec and a whitespace decoration of it (the tree `SpSpec` of Model/MapSpecSpaced.lean). The TEXT and the spec it must
+    parse to are computed by the Lean driver, not here."""
+    spec, label = gen_spec(rng, odd=0.06), "wf"
+    if rng.random() < 0.15:
+        m = malform(rng, spec)
+        if m is not None and m[1] != "no-out":
+            spec, label = m[0], "malformed-" + m[1]
+    style = rng.choice(["dense", "sparse", "sparse", "inner-only", "outer-only", "str", "none"])
+    p_in = {"dense": 0.9, "sparse": 0.3, "inner-only": 0.6, "outer-only": 0.0, "str": 0.0, "none": 0.0}[style]
+    p_out = {"dense": 0.9, "sparse": 0.3, "inner-only": 0.0, "outer-only": 0.6, "str": 0.0, "none": 0.0}[style]
+
+    def w(pool, p):
+        return rng.choice(pool) if rng.random() < p else ""
+
+    def arr(n, ax, first):
+        axes = [[w(WS_INNER, p_in), a, w(WS_INNER, p_in)] for a in ax]
+        l, r = w(WS_OUTER, p_out), w(WS_OUTER, p_out)
+        if style == "str":                                            # the decoration `__str__` writes (C08_str_is_spacing)
+            axes = [["" if q == 0 else " ", a, ""] for q, a in enumerate(ax)]
+            l, r = ("" if first else " "), ""
+        return [l, n, axes, r]
+    t = {"inputs": [arr(n, ax, q == 0) for q, (n, ax) in enumerate(spec["inputs"])],
+         "outputs": [arr(n, ax, q == 0) for q, (n, ax) in enumerate(spec["outputs"])],
+         "dl": w(WS_OUTER, p_out), "al": w(WS_OUTER, p_out), "ar": w(WS_OUTER, p_out)}
+    if style == "str":
+        t["dl"], t["al"], t["ar"] = "", " ", " "
+    if rng.random() < 0.12:                                            # outside the grammar on purpose: compared, no clause
+        arrs = [a for a in t["inputs"] + t["outputs"] if a[2]]
+        kind = rng.choice(["newline-inside", "gap-before-bracket", "junk-inside", "junk-outside", "dash-outside"])
+        if kind == "gap-before-bracket" and (t["inputs"] + t["outputs"]):
+            a = rng.choice(t["inputs"] + t["outputs"]); a[1] = a[1] + rng.choice([" ", "\t"])
+        elif kind == "junk-outside" and (t["inputs"] + t["outputs"]):
+            a = rng.choice(t["inputs"] + t["outputs"]); a[rng.choice([0, 3])] += rng.choice(["zz", " q ", ";", "["])
+        elif kind == "dash-outside":
+            t[rng.choice(["al", "ar"])] += rng.choice(["-", ">", "- "])
+        elif arrs:
+            x = rng.choice(rng.choice(arrs)[2])
+            x[rng.choice([0, 2])] += "\n" if kind == "newline-inside" else rng.choice(["x", ",", "]", ":"])
+        label += "+broken:" + kind
+    return {"k": "spaced", "t": t, "label": label, "style": style}
+
+
+def spaced_ws(t):
+    return "".join([t["dl"], t["al"], t["ar"]] + [a[0] + a[3] + "".join(x[0] + x[2] for x in a[2]) for a in t["inputs"] + t["outputs"]])
+
+
+def check_spaced(ctx, cases):
+    """Lean first (text, spec it stands for, hypotheses of C08_parse_spaced), then `from_string` on Lean's text."""
+    cases = [c for c in cases if ascii_only(c) or ctx.skip("non-ascii")]
+    outs = ctx.lean([r for c in cases for r in requests_for(c)])
+    for case, resp in zip(cases, outs):
+        mo = resp["r"]
+        if "skip" in mo:
+            ctx.skip("driver-skip")
+            continue
+        o, bad = run_spaced_impl(case, mo)
+        model = canon_model(case, [resp])
+        ctx.count("kind:spaced")
+        ctx.count(f"spaced:{case['label'].split(':')[0]}")
+        ctx.count(f"spaced:style={case['style']}")
+        ctx.count(f"spaced:hypotheses={mo['decoration_ok'] and mo['wf']}")
+        ctx.count("spaced:" + ("accepted" if "ok" in o["parse"] else o["parse"]["err"]))
+        ws = spaced_ws(case["t"])
+        ctx.count(f"spaced:ws-chars={'0' if not ws else '1-5' if len(ws) <= 5 else '6-20' if len(ws) <= 20 else '>20'}")
+        if "\n" in ws:
+            ctx.count("spaced:with-newline")
+        if any(ch in ws for ch in "\x1c\x1d\x1e\x1f"):
+            ctx.count("spaced:with-x1c-x1f")
+        ctx.record(case, nontrivial(case))
+        if bad:
+            ctx.violation(case, bad[0], impl=o, model=model, key=clause_key(bad[0]))
+        elif o != model:
+            ctx.violation(case, "implementation and model disagree on spaced (the property's clauses hold on this input)",
+                          found_input=False, item="correspondence:spaced", impl=o, model=model)
+
+
+def run_spaced_impl(case, mo):
+    """`mo` is the driver's answer: the clause is Lean's (`parse text = ok erase` under `decoration_ok` and `wf`)."""
+    bad = []
+    text = mo["text"]
+    r = attempt(lambda: MapSpec.from_string(text), spec_json)
+    o = {"parse": r}
+    if mo["decoration_ok"] and mo["wf"]:
+        if r != {"ok": mo["erase"]}:
+            bad.append(f"from_string({text!r}) is not the spec this whitespace-decorated text stands for")
+        else:
+            try:
+                same = MapSpec.from_string(text) == build(mo["erase"]) == MapSpec.from_string(str(build(mo["erase"])))
+            except Exception:  # noqa: BLE001
+                same = False
+            if not same:
+                bad.append(f"from_string({text!r}) != the spec it writes")
+    if "ok" in r and malformations(r["ok"]):
+        bad.append(f"from_string({text!r}) returned a spec with {malformations(r['ok'])[0]}")
+    if mo["is_str"]:
+        printed = attempt(lambda: str(build(mo["erase"])))
+        if "ok" in printed:
+            o["str_is_text"] = printed["ok"] == text
+    return o, bad
+
 # ------------------------------------------------------------------------------------------------ implementation side
 def key_json(k):
     return [None if isinstance(c, slice) and c == slice(None) else (int(c) if isinstance(c, int) else repr(c)) for c in k]
@@ -578,6 +725,41 @@ def run_ops_impl(case):
                     bad.append("rename did not produce the renamed mapping")
             elif not mal and all(name_ok(v) for v in ren.values()):
                 bad.append("rename to valid names raised")
+            if "ok" in r and not mal and len(ren) == 2 and all(ren.get(v) == k for k, v in ren.items()) and all(k != v for k, v in ren.items()):
+                back = attempt(lambda: m.rename(ren).rename(ren), spec_json)                      # C08_rename_swap: an involution
+                if back != {"ok": spec}:
+                    bad.append("renaming with a swap twice does not give the spec back")
+        elif name == "to_string":
+            t = attempt(lambda: m.to_string())
+            out.append(t.get("ok", t))
+            if t.get("ok") != str(m):
+                bad.append("to_string() is not str(m)")
+        elif name == "rename_seq":
+            r1, r2 = dict(op[1]), dict(op[2])
+            r = attempt(lambda: m.rename(r1).rename(r2), spec_json)
+            out.append(r)
+            comp = lambda n: r2.get(r1.get(n, n), r1.get(n, n))                                  # noqa: E731
+            if "ok" in r and not mal:
+                want = {"inputs": [[comp(n), ax] for n, ax in spec["inputs"]], "outputs": [[comp(n), ax] for n, ax in spec["outputs"]]}
+                if r["ok"] != want:
+                    bad.append("two renames in a row did not produce the composed renaming")
+                else:                                                                           # C08_rename_compose: one table, same spec
+                    tau = {n: comp(n) for n, _ in spec["inputs"] + spec["outputs"]}
+                    one = attempt(lambda: m.rename(tau), spec_json)
+                    if one != r:
+                        bad.append("rename with the composed table differs from the two renames in a row")
+        elif name == "add_axes_seq":
+            a1, a2 = op[1], op[2]
+            r = attempt(lambda: m.add_axes(*a1).add_axes(*a2), spec_json)
+            out.append(r)
+            used = {a for _, x in spec["inputs"] + spec["outputs"] for a in x if a is not None}
+            fine = all(a is not None and is_ident(a) and a not in used for a in a1 + a2) and not set(a1) & set(a2)
+            if fine and not mal:                                                                # C08_add_axes_compose
+                one = attempt(lambda: m.add_axes(*(a1 + a2)), spec_json)
+                if "ok" not in r:
+                    bad.append("add_axes of fresh axes in two steps raised")
+                elif one != r:
+                    bad.append("add_axes in two steps differs from add_axes of all the axes at once")
         elif name == "add_axes":
             ax = op[1]
             r = attempt(lambda: m.add_axes(*ax), spec_json)
@@ -672,6 +854,8 @@ def requests_for(case):
         return [{"m": "ops", "a": {"spec": case["spec"], "ops": case["ops"]}}]
     if case["k"] == "findall":
         return [{"m": "findall", "a": {"s": case["s"]}}]
+    if case["k"] == "spaced":
+        return [{"m": "spaced", "a": {"t": case["t"]}}]
     return [{"m": e, "a": {"specs": case["specs"]}} for e in ("consistent", "axes", "consistent_loop", "dims", "trace")]
 
 
@@ -692,6 +876,14 @@ def canon_model(case, resps):
         out = {"consistent": resps[0]["r"], "axes": ax, "dims": dims, "trace": tr}
         if resps[2]["r"] != resps[0]["r"]:
             out["model-self-check"] = "consistentAxesLoop differs from consistentAxes"
+        return out
+    if case["k"] == "spaced":
+        r = resps[0]["r"]
+        out = {"parse": r["parse"]}
+        if r["is_str"] and r["constructs"]:
+            out["str_is_text"] = True
+        if r.get("theorem_holds") is not True:
+            out["model-self-check"] = "C08_parse_spaced fails on this decoration"
         return out
     if case["k"] == "findall":
         r = resps[0]["r"]
@@ -766,6 +958,8 @@ def ascii_only(case):
 
 
 def nontrivial(case):
+    if case["k"] == "spaced":
+        return bool(spaced_ws(case["t"]))
     if case["k"] in ("parse", "findall"):
         return "[" in case["s"]
     if case["k"] == "ops":
@@ -795,6 +989,10 @@ def clause_key(what):
 
 
 def check_cases(ctx, cases):
+    sp = [c for c in cases if c["k"] == "spaced"]
+    if sp:
+        check_spaced(ctx, sp)
+        cases = [c for c in cases if c["k"] != "spaced"]
     reqs, metas = [], []
     for case in cases:
         if not ascii_only(case):
@@ -862,6 +1060,22 @@ CORPUS = [
      "ops": [["shape", [["x", [3]]], [["y", [2]]]], ["shape", [["x", [3]]], [["z", [2]]]], ["shape", [["x", [3]]], []], ["outkeys", [3]], ["inkeys_all", [3]]], "label": "corpus"},
     {"k": "multi", "specs": [{"inputs": [["x", ["i"]]], "outputs": [["y", ["i"]]]}, {"inputs": [["y", ["j"]]], "outputs": [["z", ["j"]]]}]},
     {"k": "multi", "specs": [{"inputs": [["x", [None, "i"]]], "outputs": [["y", ["i"]]]}]},                                  # DF-29b (C19): not compared
+    # round 9: C08_spacing_limits_witness replayed on the real code
+    {"k": "parse", "s": "a[i,\n j], c[i] -> b[i, j]", "label": "corpus"},
+    {"k": "parse", "s": "a [i], c[i] -> b[i]", "label": "corpus"},
+    {"k": "parse", "s": "a[i], c[i] - > b[i]", "label": "corpus"},
+    # sp1 / sp2 of Props/C08Spaced.lean
+    {"k": "spaced", "label": "corpus", "style": "corpus", "t": {"inputs": [["\n ", "x", [["\t", "i", " "], [" ", None, " "]], "\r"], ["", "y.s", [[" ", "j", ""]], "\t"]],
+     "dl": "", "al": "", "ar": "\n ", "outputs": [["", "z", [["", "i", ""], ["", "j", "\x0c"]], " "]]}},
+    {"k": "spaced", "label": "corpus", "style": "corpus", "t": {"inputs": [], "dl": " \n", "al": "\t", "ar": "", "outputs": [["", "b", [[" ", "i", "\x1c"]], ""]]}},
+    # C08_rename_chain_witness, C08_rename_swap, C08_add_axes_repeated_witness replayed on the real code
+    {"k": "ops", "spec": {"inputs": [["a", ["i"]], ["b", ["i"]]], "outputs": [["o", ["i"]]]},
+     "ops": [["to_string"], ["rename", [["a", "b"], ["b", "c"]]], ["rename_seq", [["a", "b"]], [["b", "c"]]], ["rename", [["a", "b"], ["b", "a"]]],
+             ["rename", [["a", "o"], ["o", "a"]]], ["add_axes", ["n", "n"]], ["add_axes_seq", ["n"], ["n"]], ["add_axes_seq", ["n"], ["k"]]], "label": "corpus"},
+    {"k": "ops", "spec": {"inputs": [], "outputs": [["o", ["i"]]]}, "ops": [["add_axes", ["p"]], ["ext"], ["add_axes_seq", ["p"], ["q"]]], "label": "corpus"},
+    # C08_repeated_index_witness replayed on the real code: no shape is accepted by both output_key and input_keys
+    {"k": "ops", "spec": {"inputs": [["a", ["i"]]], "outputs": [["b", ["i", "i"]]]},
+     "ops": [["ext"], ["outkey", [2], 1], ["inkeys", [2], 1], ["inkeys", [2, 2], 1], ["outkey", [2, 2], 1]], "label": "corpus"},
 ]
 
 
@@ -903,8 +1117,9 @@ def run(ctx):
     rng = ctx.rng
     n_ops, n_str, n_multi = ctx.n(3000, 40000), ctx.n(6000, 80000), ctx.n(1200, 12000)
     n_fa = ctx.n(5000, 80000) if source_pattern() else 0
+    n_sp = ctx.n(3000, 40000)
     chunk = 20000
-    todo = [gen_ops_case] * n_ops + [gen_string_case] * n_str + [gen_multi_case] * n_multi + [gen_findall_case] * n_fa
+    todo = [gen_ops_case] * n_ops + [gen_string_case] * n_str + [gen_multi_case] * n_multi + [gen_findall_case] * n_fa + [gen_spaced_case] * n_sp
     for at in range(0, len(todo), chunk):
         check_cases(ctx, [g(rng) for g in todo[at:at + chunk]])
     if ctx.tier == "thorough":
@@ -927,6 +1142,14 @@ def pre_build(ctx):
 
 
 def replay(ctx, case):
+    if case["k"] == "spaced":
+        resp = ctx.lean(requests_for(case))[0]
+        o, bad = run_spaced_impl(case, resp["r"])
+        print("text (from the Lean driver):", repr(resp["r"]["text"]), "| stands for:", resp["r"]["erase"],
+              "| hypotheses of C08_parse_spaced:", resp["r"]["decoration_ok"] and resp["r"]["wf"])
+        print("implementation:", o, "| failed clauses:", bad)
+        print("model:", canon_model(case, [resp]))
+        return
     o, bad = run_impl(case)
     print("implementation:", o, "| failed clauses:", bad)
     print("model:", canon_model(case, ctx.lean(requests_for(case))))
